@@ -430,11 +430,14 @@ structure Restorer where
   current : Option Nat := none
   pending : List Nat := []
   db : List Bytes := []
+  /-- Identity of the checkpoint metadata object of the restore in progress (Go compares the
+  `*Metadata` pointers, restorer.go phase 2): every `StartRestore` is a new generation. -/
+  gen : Nat := 0
 
 def rsStart (rs : Restorer) (nchunks : Nat) : Except RErr Restorer :=
   match rs.current with
   | some _ => .error .inProgress
-  | none => .ok { rs with current := some nchunks, pending := List.range nchunks }
+  | none => .ok { rs with current := some nchunks, pending := List.range nchunks, gen := rs.gen + 1 }
 
 def rsAbort (rs : Restorer) : Restorer := { rs with current := none, pending := [] }
 
@@ -453,47 +456,52 @@ def rsRestoreChunk (H : Bytes → Bytes) (root : Bytes) (rs : Restorer) (idx : N
       | .error e => (.error e, rs)
       | .ok db =>
         let pending := rs.pending.filter (· ≠ idx)
-        if pending.isEmpty then (.ok true, { current := none, pending := [], db := db })
+        if pending.isEmpty then (.ok true, { rs with current := none, pending := [], db := db })
         else (.ok false, { rs with pending := pending, db := db })
 
-/-! ### `RestoreChunk` under concurrent callers (restorer.go:66-110)
+/-! ### `RestoreChunk` under concurrent callers (restorer.go:66-116)
 
-Phase 1 runs under the restorer's lock: a restore must be in progress and the chunk pending. The import
-(`restoreChunk`) runs outside the lock. Phase 2 runs under the lock again: the index is removed from the
-pending set and completion is reported when the set is empty — without checking again that the restore
-that phase 1 saw is still the one in progress. Several callers can be between the phases. -/
+Phase 1 runs under the restorer's lock: a restore must be in progress and the chunk pending; the call
+remembers which restore it saw. The import (`restoreChunk`) runs outside the lock. Phase 2 runs under
+the lock again: if the restore in progress is no longer the one phase 1 saw (aborted, completed, or
+aborted and restarted) the call returns `ErrNoRestoreInProgress`; otherwise the index is removed from
+the pending set and completion is reported when the set is empty. Several callers can be between the
+phases. (Before commit 3c2e444 phase 2 did not look at the restore in progress: `rsFinishOld` in
+OasisProofs/Props/C12.lean.) -/
 
-/-- Phase 1. -/
-def rsBegin (rs : Restorer) (idx : Nat) : Except RErr Unit :=
+/-- Phase 1: returns the generation of the restore it saw. -/
+def rsBegin (rs : Restorer) (idx : Nat) : Except RErr Nat :=
   match rs.current with
   | none => .error .noRestore
   | some n =>
     if !rs.pending.contains idx then .error .alreadyRestored
     else if idx ≥ n then .error .chunkNotFound
-    else .ok ()
+    else .ok rs.gen
 
-/-- Import + phase 2. -/
-def rsFinish (H : Bytes → Bytes) (root : Bytes) (rs : Restorer) (idx : Nat) (c : ChunkData) :
+/-- Import + phase 2 of a call that saw generation `seen` in phase 1. -/
+def rsFinish (H : Bytes → Bytes) (root : Bytes) (rs : Restorer) (idx : Nat) (seen : Nat) (c : ChunkData) :
     Except RErr Bool × Restorer :=
   match restoreChunkM H root rs.db c with
   | .error .proofFailed => (.error .proofFailed, rsAbort rs)
   | .error e => (.error e, rs)
   | .ok db =>
-    let pending := rs.pending.filter (· ≠ idx)
-    if pending.isEmpty then (.ok true, { current := none, pending := [], db := db })
-    else (.ok false, { rs with pending := pending, db := db })
+    if rs.current.isNone || rs.gen != seen then (.error .noRestore, { rs with db := db })
+    else
+      let pending := rs.pending.filter (· ≠ idx)
+      if pending.isEmpty then (.ok true, { rs with current := none, pending := [], db := db })
+      else (.ok false, { rs with pending := pending, db := db })
 
 /-- Events of a session with concurrent callers. -/
 inductive CEvent
   | start (n : Nat)
   | abort
   | begin (idx : Nat)
-  | finish (idx : Nat) (c : ChunkData)
+  | finish (idx : Nat) (seen : Nat) (c : ChunkData)
 
-/-- Restorer plus the calls that are between their two phases. -/
+/-- Restorer plus the calls that are between their two phases (index, generation seen). -/
 structure CState where
   rs : Restorer := {}
-  inflight : List Nat := []
+  inflight : List (Nat × Nat) := []
 
 /-- One event; the second component is what a `RestoreChunk` call returns when it ends here. -/
 def cStep (H : Bytes → Bytes) (root : Bytes) (s : CState) : CEvent → CState × Option (Except RErr Bool)
@@ -504,12 +512,12 @@ def cStep (H : Bytes → Bytes) (root : Bytes) (s : CState) : CEvent → CState 
   | .abort => ({ s with rs := rsAbort s.rs }, none)
   | .begin idx =>
     match rsBegin s.rs idx with
-    | .ok _ => ({ s with inflight := idx :: s.inflight }, none)
+    | .ok g => ({ s with inflight := (idx, g) :: s.inflight }, none)
     | .error e => (s, some (.error e))
-  | .finish idx c =>
-    if s.inflight.contains idx then
-      let r := rsFinish H root s.rs idx c
-      ({ rs := r.2, inflight := s.inflight.erase idx }, some r.1)
+  | .finish idx seen c =>
+    if s.inflight.contains (idx, seen) then
+      let r := rsFinish H root s.rs idx seen c
+      ({ rs := r.2, inflight := s.inflight.erase (idx, seen) }, some r.1)
     else (s, none)
 
 def cRun (H : Bytes → Bytes) (root : Bytes) (s : CState) (evs : List CEvent) : CState :=
